@@ -19,6 +19,7 @@ def dispatch (req : Sexp) : Sexp :=
   | some "resolve" => handleResolve req
   | some "path" => handlePath req
   | some "sig" => handleSig req
+  | some "consumer" => handleConsumer req
   | some "place" => handlePlace req
   | some "cli" => handleCli req
   | some "misc" => handleMisc req
